@@ -1,3 +1,109 @@
-From EN Require Import Lib.Bytes Conc.TlsBase Conc.TlsPump.
-Theorem placeholder_c08 : True. Proof. exact I. Qed.
-Print Assumptions placeholder_c08.
+(* C08 — TLS transport is a transparent, encrypted byte stream.
+   Statements only; proofs in Proofs/C08_proofs.v (and Proofs/C09_proofs.v for the ideal record layer).
+   Models: Conc/TlsPump.v (_retry_ssl_method, __write_all_to_ssl_object, readinto, the two locks; several tasks on
+   one transport, any interleaving), Conc/IdealTls.v (ideal record layer, defined).  The SSL object and the wrapped
+   transport are oracles: the theorems below hold for EVERY answer they may give. *)
+From Coq Require Import List Bool.
+From EN Require Import Lib.Bytes Conc.TlsBase Conc.TlsPump Conc.IdealTls Proofs.C08_proofs Proofs.C09_proofs.
+Import ListNotations.
+
+(* (i) cipher_only.  For every trace (any number of tasks, any interleaving, any answers of the SSL object and of the
+   wrapped transport) that the model accepts: the bytes handed to transport.send_all, in order, followed by what is
+   still pending in the outgoing BIO, are exactly the bytes the SSL object appended to the outgoing BIO, in order —
+   nothing else ever reaches the wire (in particular nothing from _data_deque), nothing is dropped, duplicated or
+   reordered.  ADesync marks a label that does not fit the code (the model rejects such traces). *)
+Theorem cipher_only : forall ls y acts,
+  sys_exec sys0 ls = Some (y, acts) -> ~ In ADesync (map snd acts) ->
+  sent (map snd acts) ++ wbio (y_sh y) = produced ls.
+Proof.
+  intros ls y acts H Hd. destruct (sys_exec_flow ls sys0 y acts H Hd) as [F _]. exact F.
+Qed.
+Print Assumptions cipher_only.
+
+(* (i') each single payload is the whole outgoing BIO at that moment (write_bio.read()), and empties it. *)
+Theorem every_send_is_the_outgoing_bio : forall m b s p l s' p' a w,
+  step m b s p l = Some (s', p', a) -> In (ASend w) a -> w = wbio s /\ wbio s' = [] /\ l = LGo.
+Proof. exact step_send_is_wbio. Qed.
+Print Assumptions every_send_is_the_outgoing_bio.
+
+(* (ii) pump_transparent — FULL STATEMENT (not proved as one theorem):
+     two pumps (or a pump and the ideal peer) joined by a transport that fragments and delays arbitrarily, both
+     directions active, any interleaving: the plaintext read by one side is a prefix of the plaintext written by the
+     other, in order, nothing duplicated.
+   Proved here are the two halves that concern the pump, for every trace, and (in C09.v) the decoding lemma of the ideal
+   layer; their composition with the ideal layer's encoder over a fragmenting network is validated on the real runs
+   (end-to-end plaintext equality against real OpenSSL), not proved. *)
+
+(* (ii-a) send side = cipher_only above: the wire carries exactly the SSL object's output, in order.
+   (ii-b) receive side: the bytes written into the incoming BIO, in order, are exactly the bytes recv_into returned,
+   in order — for every trace, every fragmentation (each TRcvd answer is an arbitrary fragment), every interleaving. *)
+Theorem pump_transparent_partial : forall ls y acts,
+  sys_exec sys0 ls = Some (y, acts) -> ~ In ADesync (map snd acts) ->
+  sent (map snd acts) ++ wbio (y_sh y) = produced ls /\ fed (map snd acts) = received ls.
+Proof.
+  intros ls y acts H Hd. exact (sys_exec_flow ls sys0 y acts H Hd).
+Qed.
+Print Assumptions pump_transparent_partial.
+
+(* (ii-c) ideal layer: a complete record at the head of a buffer that holds any prefix (k bytes) of a record stream is
+   decoded to its plaintext and the rest of the prefix is kept; an incomplete one is left alone (WantRead).  E/D: any
+   byte map with D (E x) = x. *)
+Theorem ideal_decodes_only_complete_records : forall (E D : byte -> byte),
+  (forall x, D (E x) = x) ->
+  forall t p rest k,
+  parse1 D (firstn k (enc E t p ++ rest)) =
+    if Nat.leb (2 + length p) k then Some (t, p, firstn (k - (2 + length p)) rest) else None.
+Proof. intros E D DE. exact (parse1_prefix E D DE). Qed.
+Print Assumptions ideal_decodes_only_complete_records.
+
+(* (iii) pump_progress — FULL STATEMENT (not proved as one theorem):
+     in every reachable state of two pumps over the ideal layer in which some plaintext is unread or the handshake is
+     incomplete, a transition is enabled that does not depend on the blocked party.
+   Proved: the local ordering facts that rule out the deadlock "waiting for the peer while our own flight is still in
+   the outgoing BIO", for every state and every answer. *)
+
+(* (iii-a) WANT_READ with ciphertext pending and the send lock free: the task's next action is send_all(everything
+   pending) and it is then NOT yet reading. *)
+Theorem pump_progress_partial : forall m b s x,
+  a_meth x = m -> a_arg x = expected_arg m b s -> a_out x = SWantRead ->
+  send_lock s = false -> wbio s ++ a_wdelta x <> [] ->
+  exists s1 s2,
+    step m b s PCall (LSsl x) = Some (s1, PFlush KRead, []) /\
+    settle m s1 (PFlush KRead) = (s2, PSending KRead, [ASend (wbio s ++ a_wdelta x)]) /\
+    wbio s2 = [].
+Proof. exact wantread_flushes_first. Qed.
+Print Assumptions pump_progress_partial.
+
+(* (iii-b) a task gets to "waiting to read" only through the flush point of the WANT_READ branch: either the outgoing
+   BIO was empty while it held the send lock, or its send_all of the whole outgoing BIO has returned. *)
+Theorem read_only_after_flush : forall m b s p l s' a,
+  step m b s p l = Some (s', PRecvWait, a) ->
+  (p = PFlush KRead /\ l = LGo /\ wbio s = [] /\ a = []) \/ (p = PSending KRead /\ l = LT TSent).
+Proof. exact recvwait_only_after_flush. Qed.
+Print Assumptions read_only_after_flush.
+
+(* (iii-c) recv_into is started only from "waiting to read". *)
+Theorem recv_into_only_from_waiting : forall m b s p l s' p' a,
+  step m b s p l = Some (s', p', a) -> In ARecv a -> p = PRecvWait /\ l = LGo /\ p' = PRecving.
+Proof. exact recv_only_from_recvwait. Qed.
+Print Assumptions recv_into_only_from_waiting.
+
+(* ---- non-vacuity: a full-duplex trace — handshake task 0 flushes its flight and reads; writer task 1 encrypts 3
+   bytes; reader task 2 gets WANT_READ and flushes the WRITER's ciphertext before it reads; the writer then finds the
+   outgoing BIO empty. *)
+Definition ex_trace : list slab :=
+  [ SSpawn MHandshake 0 [];
+    SStep 0 (LSsl {| a_meth := MHandshake; a_arg := 0; a_out := SWantRead; a_wdelta := [7; 7]%N |});
+    SStep 0 LGo; SStep 0 (LT TSent); SStep 0 LGo; SStep 0 (LT (TRcvd [9]%N));
+    SStep 0 (LSsl {| a_meth := MHandshake; a_arg := 0; a_out := SOk 0; a_wdelta := [] |}); SStep 0 LGo;
+    SSpawn MWrite 0 [[1; 2; 3]%N]; SSpawn MRead 10 [];
+    SStep 1 (LSsl {| a_meth := MWrite; a_arg := 3; a_out := SOk 3; a_wdelta := [5; 5; 5; 5]%N |});
+    SStep 2 (LSsl {| a_meth := MRead; a_arg := 10; a_out := SWantRead; a_wdelta := [] |});
+    SStep 2 LGo; SStep 2 (LT TSent); SStep 1 LGo; SStep 2 LGo ].
+Example ex_accepts :
+  option_map (fun r => (map snd (snd r), wbio (y_sh (fst r)))) (sys_exec sys0 ex_trace)
+  = Some ([ASend [7; 7]%N; ARecv; AFeed [9]%N; ASend [5; 5; 5; 5]%N; ARecv], []).
+Proof. vm_compute. reflexivity. Qed.
+Example ex_cipher_only :
+  sent [ASend [7; 7]%N; ARecv; AFeed [9]%N; ASend [5; 5; 5; 5]%N; ARecv] ++ [] = produced ex_trace.
+Proof. vm_compute. reflexivity. Qed.
